@@ -55,6 +55,9 @@ def classify_writer(h: str):
         return "unknown"
     if "write_lock" in h:
         return "unknown"
+    import re
+    if re.match(r"self\.\w+(\[[^\]]*\])?\s*(=|\+=|-=)[^=]", h):
+        return "unknown"        # any other store to an attribute of the connection is shared state too
     return None
 
 
